@@ -222,6 +222,9 @@ def impl_tokens(data):
         except ValueError:
             out += [12, 0]
             break
+        except Exception as e:  # anything else the tokenizer may raise: compared as its own code
+            out += [100 + c18_code(e), 0]
+            break
         out += [order.index(kind), len(tok)] + list(tok)
     return out
 
@@ -481,6 +484,9 @@ def rand_list(rng, d, maxd, mix):
         return ("L", [rand_value(rng, d + 1, maxd, mix) for _ in range(n)])
     if r < mix + (0.45 if d < maxd else 0):        # all Dicts
         return ("L", [rand_dict(rng, d + 1, maxd, mix) for _ in range(n)])
+    if d < maxd and r < mix + 0.57:                # a non-Dict first, Dicts later: written compactly, inside a Dict's indent
+        first = rand_leaf(rng) if rng.random() < 0.7 else ("L", [rand_leaf(rng)])
+        return ("L", [first] + [rand_dict(rng, d + 1, maxd, 0.0) for _ in range(max(1, n - 1))])
     items = []                                     # Dict-free: leaves and nested Lists
     for _ in range(n):
         if d < maxd and rng.random() < 0.25:
@@ -547,6 +553,9 @@ def gen_trees(ck):
               [("a", ("D", [("b", ("L", [("D", [("c", ("L", [E]))])]))]))],
               [("a", ("L", [("L", [("L", [("I", 1)])])]))], [("a", E), ("b", EL), ("c", ("I", 1))],
               [("a", ("L", [("D", [("x", ("L", [("I", 1), ("I", 2)]))])]))],
+              [("a", ("L", [("S", "x"), E, E]))], [("a", ("L", [EL, E]))], [("a", ("L", [("F", 0.5), ("D", [("b", ("L", [E]))])]))],
+              [("a", ("D", [("b", ("L", [("B", False), ("D", [("c", ("L", [E, E]))]), ("I", 1)]))]))],
+              [("a", ("L", [("D", [("b", ("L", [("I", 1), E]))])]))],
               # F-C18-2 members (first item a Dict, a later one not)
               [("a", ("L", [E, ("I", 5)]))], [("a", ("L", [E, ("F", 5.5)]))], [("a", ("L", [E, ("B", True)]))],
               [("a", ("L", [E, ("S", "x")]))], [("a", ("L", [E, EL]))], [("a", ("L", [E, ("L", [("I", 1)])]))],
@@ -561,7 +570,7 @@ def gen_trees(ck):
         yield ("guard", kv)
     # 5. random trees up to the tier's depth
     maxd = 6 if thorough else 4
-    for i in range(12000 if thorough else 1500):
+    for i in range(20000 if thorough else 1500):
         md = rng.randint(1, maxd)
         mix = 0.08 if i % 4 == 0 else 0.0
         used = set()
@@ -570,7 +579,7 @@ def gen_trees(ck):
     for i in range(3000 if thorough else 400):
         yield ("spine", spine(rng, rng.randint(2, maxd)))
     # 6. random strings
-    for i in range(6000 if thorough else 1200):
+    for i in range(10000 if thorough else 1200):
         yield ("randstr", [("s", ("S", rand_string(rng))), ("l", ("L", [("S", rand_string(rng))]))])
 
 
@@ -704,9 +713,13 @@ def embedded_check(ck, blobs):
                     elif vb not in blk:
                         ck.fail("embedded-block-lost-data", inp, {"len": len(blk)}, "block contains the engine data")
                     else:
-                        d2 = TypeToolObjectSetting.frombytes(blk)
-                        v2 = d2.text_data.get(b"EngineData").value
-                        if not isinstance(v2, m.EngineData) or v2.tobytes() != vb:
+                        try:
+                            d2 = TypeToolObjectSetting.frombytes(blk)
+                            v2 = d2.text_data.get(b"EngineData").value
+                            ok2 = isinstance(v2, m.EngineData) and v2.tobytes() == vb
+                        except Exception as e:
+                            v2, ok2 = e, False
+                        if not ok2:
                             ck.fail("embedded-block-reread-differs", inp, type(v2).__name__, "same engine data")
             if found != len(raws):
                 ck.fail("embedded-count", {"file": rel}, found, len(raws))
@@ -791,6 +804,16 @@ def has_special_string(t):
 # ------------------------------------------------------------------ the run
 def run():
     ck = Check("C18")
+    try:
+        return _run(ck)
+    except Exception as e:  # an exception of the implementation in a place no oracle guards: still a reported failure
+        import traceback
+
+        ck.fail("unexpected-exception", {"where": traceback.format_exc().splitlines()[-6:]}, repr(e), "no exception")
+        return ck.finish()
+
+
+def _run(ck):
     ck.rule = ("trees: every string over the critical alphabet {a ( ) \\ CR U+015C U+5C5C U+2829 U+FEFF NUL U+295C} up to the "
                "tier's length, the same strings in every container position, int/decimal/bool/property/tag tables, "
                "hand-written container shapes (incl. the F-C18-2 class), random trees up to the tier's depth (a quarter "
@@ -875,7 +898,11 @@ def run():
             ck.fail("fixture-raises", {"fixture": name}, repr(ex), "parse and write")
             continue
         if name.endswith("TySh_2.dat"):
-            if canon_obj(top_cls(ly).frombytes(o)) != canon_obj(e):
+            try:
+                same = canon_obj(top_cls(ly).frombytes(o)) == canon_obj(e)
+            except Exception as ex:
+                same = False
+            if not same:
                 ck.fail("fixture-reread-differs", {"fixture": name}, len(o), "same tree")
         elif o != b:
             i = next((k for k in range(min(len(o), len(b))) if o[k] != b[k]), min(len(o), len(b)))
@@ -907,7 +934,11 @@ def run():
     s_cases, u_cases = [], []
     for s in itertools.chain(crit_strings(4 if thorough else 3), (rand_string(ck.rng) for _ in range(2000 if thorough else 500))):
         p = s.encode("utf-16-be")
-        w = m.String(s).tobytes()
+        try:
+            w = m.String(s).tobytes()
+        except Exception as e:
+            ck.fail("string-write-raises", {"string": s}, repr(e), "bytes")
+            continue
         s_cases.append((list(p), list(w)))
         try:
             back = m.String.frombytes(w).value
@@ -930,7 +961,11 @@ def run():
     fl_in = FLOATS + [-f for f in FLOATS] + [rand_float(ck.rng) for _ in range(4000 if thorough else 800)]
     for v in fl_in:
         n, g, ti = fcanon(v)
-        w = m.Float(v).tobytes()
+        try:
+            w = m.Float(v).tobytes()
+        except Exception as e:
+            ck.fail("float-write-raises", {"float": v}, repr(e), "bytes")
+            continue
         f_cases.append(((n, g, ti), list(w)))
         if w != (b"%.8f" % v) and not re.fullmatch(rb"-?\d*\.\d+", w):
             ck.fail("float-text-form", {"float": v}, list(w), "-?\\d*\\.\\d+")
@@ -947,7 +982,11 @@ def run():
         if (b"%.8f" % v).decode() != "%s%d.%08d" % (sgn, g // 10 ** 8, g % 10 ** 8):
             ck.fail("python-float-format-assumption", {"float": v}, (b"%.8f" % v).decode(), "exact half-even rounding")
     for tx in gen_float_texts(ck):
-        v = m.Float.frombytes(tx).value
+        try:
+            v = m.Float.frombytes(tx).value
+        except Exception as e:
+            ck.fail("float-read-raises", {"text": list(tx)}, repr(e), "a float")
+            continue
         g_cases.append((list(tx), list(fcanon(v))))
     ck.correspond("float_write", "float_text", IMPORTS, f_cases, lambda a: "(%d, %d, %d)" % a, chunk=1500)
     ck.correspond("float_read", "float_parse", IMPORTS, g_cases, zlist, chunk=1500)
@@ -958,6 +997,8 @@ def run():
         "where decimal and binary rounding provably agree (<= 15 significant digits, no tie at the 9th place)",
         "int()/'%d' digit limit of CPython (4300 digits) and non-finite floats (inf/nan print as text that is not a token) are out of scope",
         "property names outside mac-roman and strings with lone surrogates cannot be written at all (UnicodeEncodeError): outside the model",
+        "the theorems hold for trees of any depth; CPython's recursion limit (several hundred nested containers) is an implementation "
+        "limit outside the model; explored depth: see input_distribution",
     ]
     return ck.finish()
 
